@@ -16,7 +16,7 @@ func init() {
 			"D2 delta / stride discipline — every delta writer emits cur − prev with prev = φ(0, cur); every delta reader uses acc = φ(0, acc + Δ); contiguous writers announce N = max − min + 1 (or the page length), the first index of the window and stride 1 and emit exactly that window; contiguous readers advance the index by the decoded stride after every count. "+
 			"D3 decoding is additive and block-local — inside the sketch decoder and every store decoder, every write to sketch/store state is an accumulation (x += e, Add/AddWithCount, append to the buffer, page[i] += c) or lives in the paginated store's representation routines; the only plain assignment (the mapping) is guarded by nil-or-Equals (C08-D3); the block loop carries no state from one block to the next (no φ at its header). This is the structural reason why decoding into a non-empty sketch is a merge and why concatenated encodings decode to the merge of the parts. "+
 			"D4 encoding only appends — every store to the caller's buffer in the encoding primitives and in every Encode method is `*b = append(*b, …)`; EncodeFloat64LE writes only into the 8 bytes it has just appended; the receiver's observable write set is empty (C14-D1 obligation re-evaluated for every Encode). "+
-			"D5 omitIndexMapping: true → no mapping block, false → exactly one. "+
+			"D5 omitIndexMapping: true → no mapping block, false → exactly one; the optional blocks (zero weight, exact count, exact sum) are left out only on paths that know their value to be 0. "+
 			"D6 decoding constructors — DecodeDDSketch and its exact-statistics sibling build a sketch with the caller's mapping argument (the 'supplied by the caller' form), two separate stores from the caller's provider and no weight, decode the caller's bytes into exactly that sketch and return it with the decoder's error. "+
 			"SHARED (obligations of other properties that decide clauses this property states too, re-evaluated here under their home rule ids): C14-D5 for every function with Encode or Decode in its name (no package-level state between calls). C19-D1 binary part (the embedded mapping block is written from the gamma and offset fields and read back into the same kind). C19-D2/D3 (Equals of the mappings — a stream that embeds the receiver's own mapping must be accepted, so Equals must hold for a mapping and itself: symmetric tolerance table over absolute values). "+
 			"NOT DECIDED: bit-exact equality of weights after the round trip, which layout is chosen for given data, clamping into bounded target stores.",
@@ -37,6 +37,8 @@ func runC06(c *Ctx) {
 	c06AppendOnly(c, a)
 	c06Omit(c, a)
 	c06DecoderCtors(c, a, "C06-D6")
+	c06OptionalBlocks(c, "C06-D5", c.P.DeclaredMethod(a.DDSketch, "Encode"), []string{"FlagZeroCountVarFloat"})
+	c06OptionalBlocks(c, "C06-D5", c.P.DeclaredMethod(a.Exact, "Encode"), []string{"FlagCount", "FlagSum"})
 	// encoders and decoders keep nothing in package-level variables between calls
 	c.shared(func() { c14NoPackageState(c, "C14-D5") }, keyMentions("Encode", "Decode"))
 	// a stream whose embedded mapping equals the receiver's must be accepted: Equals holds for a mapping and itself
@@ -772,4 +774,79 @@ func c06DecoderCtors(c *Ctx, a *sketchAnchors, rule string) {
 		c.R.check(bad == "", rule, name+"/decodes-into-the-callers-parts", shortFn(f), c.fpos(f), "a sketch with the caller's mapping, two stores from the caller's provider and no weight; the bytes decoded into it; (sketch, decoder's error) returned", firstNonEmpty(bad, fmt.Sprintf("%d path(s)", len(paths))))
 	}
 	c.R.floor(rule, "decoding constructors", n, 2)
+}
+
+// c06OptionalBlocks: a block that the encoder may leave out (zero weight, exact count, exact sum) is left out only
+// under the evidence that its value is 0 — the value a decoder assumes for an absent block. Writing a block whose
+// value is 0 is harmless (decoding adds 0); skipping one whose value is not 0 loses it.
+func c06OptionalBlocks(c *Ctx, rule string, f *ssa.Function, flags []string) {
+	if f == nil {
+		return
+	}
+	ps, _ := exec(c, f, nil, 1)
+	for _, flag := range flags {
+		payloadKey := ""
+		bad := ""
+		nW := 0
+		type skip struct{ p *Path }
+		var skips []*Path
+		for _, p := range ps {
+			var payload *Term
+			calls := p.Calls()
+			for i, e := range calls {
+				if e.Call.Op == "call" && strings.HasSuffix(e.Call.Sym, "encoding.EncodeFlag") && len(e.Call.Args) == 2 && e.Call.Args[1].Op == "global" && strings.HasSuffix(e.Call.Args[1].Sym, "."+flag) {
+					for _, e2 := range calls[i+1:] {
+						if e2.Call.Op == "call" && strings.Contains(e2.Call.Sym, "encoding.Encode") && !e2.Pure && len(e2.Call.Args) == 2 {
+							payload = e2.Call.Args[1].unver()
+							break
+						}
+					}
+					if payload == nil {
+						bad = "flag written without a payload"
+					}
+				}
+			}
+			if payload == nil {
+				skips = append(skips, p)
+				continue
+			}
+			nW++
+			if payloadKey == "" {
+				payloadKey = stripVers(payload).Key()
+			} else if payloadKey != stripVers(payload).Key() {
+				bad = "paths disagree on the payload: " + payloadKey + " / " + payload.Key()
+			}
+		}
+		if nW == 0 {
+			c.R.violate(rule, shortFn(f)+"/optional-block/"+flag, shortFn(f), c.fpos(f), "the "+flag+" block is written on some path", "never written")
+			continue
+		}
+		for _, p := range skips {
+			zero := false
+			for _, cd := range p.Conds {
+				t := cd.Term
+				if (t.isBin("==") || t.isBin("!=")) && cd.Taken == t.isBin("==") {
+					for i := 0; i < 2; i++ {
+						if t.Args[1-i].isConst("0") && stripVers(stripConv(t.Args[i])).Key() == payloadKey {
+							zero = true
+						}
+					}
+				}
+			}
+			if !zero {
+				bad = firstNonEmpty(bad, "block skipped on a path without the evidence that "+payloadKey+" is 0: ["+p.String()+"]")
+			}
+		}
+		c.R.check(bad == "", rule, shortFn(f)+"/optional-block/"+flag, shortFn(f), c.fpos(f), "left out only when its value is known to be 0", firstNonEmpty(bad, fmt.Sprintf("%d writing / %d skipping path(s), payload %s", nW, len(skips), payloadKey)))
+	}
+}
+
+// stripVers removes load-version wrappers everywhere in a term.
+func stripVers(t *Term) *Term {
+	return rewriteTerm(t, func(x *Term) *Term {
+		if x.Op == "ver" && len(x.Args) == 1 {
+			return stripVers(x.Args[0])
+		}
+		return nil
+	})
 }
